@@ -26,6 +26,8 @@ type guardedField struct {
 
 var guardedTable = []guardedField{
 	{"pkg/datasource/sql/datasource/base", "BaseTableMetaCache", "cache", "lock", "GetTableMeta and scanExpire write the map under lock; refresh runs in its own goroutine"},
+	{"pkg/datasource/sql/datasource/base", "entry", "lastAccess", "lock", "the entries are shared through the cache map: GetTableMeta stamps them, scanExpire reads the stamp, both under the cache's lock"},
+	{"pkg/datasource/sql/datasource/base", "entry", "value", "lock", "replaced by refresh and read by GetTableMeta under the cache's lock"},
 	{"pkg/remoting/loadbalance", "Consistent", "hashCircle", "", "put and firstKey lock the embedded RWMutex; refreshHashCircle runs in a goroutine started by pick"},
 	{"pkg/remoting/loadbalance", "Consistent", "sortedHashNodes", "", "replaced together with hashCircle by refreshHashCircle"},
 	{"pkg/remoting/getty", "SessionManager", "sessionSize", "@atomic", "registerSession/releaseSession use atomic.AddInt32"},
@@ -64,9 +66,13 @@ func lockClassifier(w *core.World, owner *types.Named, g guardedField) func(pkg 
 			return nil
 		}
 		switch callee.Name() {
-		case "Lock", "RLock":
+		case "Lock":
+			return []flow.Tag{"held", "heldW"}
+		case "RLock":
 			return []flow.Tag{"held"}
-		case "Unlock", "RUnlock":
+		case "Unlock":
+			return []flow.Tag{"-held", "-heldW"}
+		case "RUnlock":
 			return []flow.Tag{"-held"}
 		}
 		return nil
@@ -211,13 +217,47 @@ func c20Field(r *core.Run, g guardedField) {
 			}
 			return true
 		})
+		// identifiers of the variable that are written: assignment targets (x.f = , x.f[k] = , x.f++), delete(x.f, k)
+		written := map[*ast.Ident]bool{}
+		markW := func(e ast.Expr) {
+			ast.Inspect(e, func(m ast.Node) bool {
+				if id, ok := m.(*ast.Ident); ok && info.Uses[id] == fld {
+					written[id] = true
+				}
+				return true
+			})
+		}
+		ast.Inspect(f.Decl.Body, func(x ast.Node) bool {
+			switch s := x.(type) {
+			case *ast.AssignStmt:
+				for _, l := range s.Lhs {
+					l = ast.Unparen(l)
+					if ix, ok := l.(*ast.IndexExpr); ok {
+						l = ix.X
+					}
+					markW(l)
+				}
+			case *ast.IncDecStmt:
+				markW(s.X)
+			case *ast.CallExpr:
+				if id, ok := ast.Unparen(s.Fun).(*ast.Ident); ok && id.Name == "delete" && len(s.Args) == 2 {
+					markW(s.Args[0])
+				}
+			}
+			return true
+		})
+		badW := ""
 		visit := func(pkg *packages.Package, x ast.Node, st *flow.State) {
 			ast.Inspect(x, func(m ast.Node) bool {
 				if lit, isLit := m.(*ast.FuncLit); isLit && async[lit] {
 					return false
 				}
-				if id, ok := m.(*ast.Ident); ok && info.Uses[id] == fld && !st.Has("held") {
-					bad = w.Pos(id.Pos())
+				if id, ok := m.(*ast.Ident); ok && info.Uses[id] == fld {
+					if !st.Has("held") {
+						bad = w.Pos(id.Pos())
+					} else if written[id] && !st.Has("heldW") {
+						badW = w.Pos(id.Pos())
+					}
 				}
 				return true
 			})
@@ -234,6 +274,10 @@ func c20Field(r *core.Run, g guardedField) {
 			}
 			return true
 		})
+		if bad == "" && badW != "" {
+			r.Bad("C20.guarded", key, w.Pos(f.Decl.Pos()), "write at "+badW+" while only the read lock is held ("+g.reason+"): readers run concurrently, two of them write the same memory — a data race")
+			continue
+		}
 		r.Check(bad == "", "C20.guarded", key, w.Pos(f.Decl.Pos()), "every access holds the lock", "access at "+bad+" without holding the lock that guards it ("+g.reason+"): data race with the writers")
 	}
 	if n == 0 {
